@@ -25,7 +25,7 @@ func init() {
 	}, runC21)
 	register("C23", PropertyMeta{
 		Technique:   "decision tables of request intake and completion + response provenance + explicit-placement rule for staged chunks",
-		Explanation: "Decides on mem/datamover: a new request is retrieved only when no transaction is active and is recorded with its ID and source; the acknowledgement is sent exactly once, only when every issued read and write has been acknowledged, addressed with the active transaction's request ID and source, and the transaction is cleared on that path; a staged source chunk is stored at the slot computed from its address (so arrival order cannot permute data) and holds a private copy of the bytes. (idempotent-stall) nothing that advances the cursors or releases staged bytes runs before a destination-busy stall test.",
+		Explanation: "Decides on mem/datamover: a new request is retrieved only when no transaction is active and is recorded with its ID and source; the acknowledgement is sent exactly once, only when every issued read and write has been acknowledged, addressed with the active transaction's request ID and source, and the transaction is cleared on that path; a staged source chunk is stored at the slot computed from its address (so arrival order cannot permute data) and holds a private copy of the bytes. (idempotent-stall) nothing that advances the cursors or releases staged bytes runs before a destination-busy stall test. (head-consumed) when the response at the head of a memory-side port is not of the kind a step handles, that step can still take it off the port (it is an orphan when source and destination are different ports).",
 		NotDecided:  "everything else about bytes and granularity chunking (value-level).",
 		Assumptions: []string{},
 	}, runC23)
@@ -449,6 +449,7 @@ func runC21(c *Ctx) {
 }
 
 func runC23(c *Ctx) {
+	headConsumedDatamoverRule(c, "head-consumed")
 	// a stalled write (destination port busy) is retried next tick: nothing that
 	// advances the cursors or releases staged bytes may run before the stall test
 	idempotentStallRule(c, "idempotent-stall", func(pp string) bool { return pp == pkgPath("mem/datamover") }, 1)
@@ -997,4 +998,71 @@ func routeByLineRule(c *Ctx, rule string) {
 		}
 	}
 	c.Check(n >= 4, rule, "instances", 0, "findPort call sites found ("+itoa(n)+")", "fewer than four findPort call sites found in the caches")
+}
+
+// headConsumedDatamoverRule: the data mover reads its memory-side responses by
+// peeking a port and asserting the kind it expects (DataReadyRsp on the source
+// side, WriteDoneRsp on the destination side). A head of the other kind must not
+// be left in place unconditionally: when source and destination are different
+// ports nothing else ever takes it off, and every later response on that port —
+// including the ones the current move waits for — is blocked behind it (a late
+// answer to a move that a Reset discarded wedges the next move in the opposite
+// direction). The branch taken when the assertion fails must be able to reach
+// RetrieveIncoming.
+func headConsumedDatamoverRule(c *Ctx, rule string) {
+	p := c.P
+	n := 0
+	for _, fn := range p.SrcFuncs(func(pp string) bool { return pp == pkgPath("mem/datamover") }) {
+		rv := fn.Signature.Recv()
+		if rv == nil || !strings.HasSuffix(rv.Type().String(), "dataTransferMW") {
+			continue
+		}
+		for _, b := range fn.Blocks {
+			ifi, ok := b.Instrs[len(b.Instrs)-1].(*ssa.If)
+			if !ok {
+				continue
+			}
+			ex, isEx := ifi.Cond.(*ssa.Extract)
+			if !isEx || ex.Index != 1 {
+				continue
+			}
+			ta, isTA := ex.Tuple.(*ssa.TypeAssert)
+			if !isTA || !ta.CommaOk {
+				continue
+			}
+			// the asserted value comes from PeekIncoming
+			call, isCall := ta.X.(*ssa.Call)
+			if !isCall {
+				continue
+			}
+			if nm, _ := calleeNamePkg(call); nm != "PeekIncoming" {
+				continue
+			}
+			n++
+			// from the failed-assertion branch, is a RetrieveIncoming reachable?
+			drops := false
+			seen := map[*ssa.BasicBlock]bool{}
+			var walk func(x *ssa.BasicBlock)
+			walk = func(x *ssa.BasicBlock) {
+				if seen[x] || drops {
+					return
+				}
+				seen[x] = true
+				for _, in := range x.Instrs {
+					if cl, isC := in.(ssa.CallInstruction); isC {
+						if nm, _ := calleeNamePkg(cl); nm == "RetrieveIncoming" {
+							drops = true
+						}
+					}
+				}
+				for _, s2 := range x.Succs {
+					walk(s2)
+				}
+			}
+			walk(b.Succs[1])
+			c.Check(drops, rule, SSAFuncKey(fn)+"@wrong-kind-head", ifi.Cond.Pos(), "a head of the other kind can be taken off the port",
+				"when the response at the head of the port is not of the kind this step handles the function returns without ever taking it off: with source and destination on different ports no other step looks at this port for that kind, so the head stays forever and every response behind it — including the ones the current move waits for — is blocked (a late answer to a move discarded by Reset wedges the next move in the opposite direction)")
+		}
+	}
+	c.Check(n >= 2, rule, "instances", 0, itoa(n)+" response-kind assertions inspected", "no response-kind assertion found in the data mover")
 }
